@@ -1652,10 +1652,17 @@ class Interp:
             if isinstance(recv, str):
                 return list(recv.encode())
         if name == "parse" and isinstance(recv, str):
-            try:
+            # <unsigned integer>::from_str: an optional '+', then ASCII digits only (no white space, no '_'); the width is not known here (u64 assumed)
+            import re as _re
+            if _re.fullmatch(r"\+?[0-9]+", recv) and int(recv) < (1 << 64):
                 return Ok(int(recv))
-            except ValueError:
-                return Err(Uninterp("parse", [recv]))
+            return Err(Uninterp("parse", [recv]))
+        if name == "parse" and is_sym(recv) and z3.is_string(recv):
+            t = z3.If(z3.PrefixOf(z3.StringVal("+"), recv), z3.SubString(recv, 1, z3.Length(recv) - 1), recv)
+            valid = z3.And(z3.Length(t) > 0, z3.Length(t) < 19, z3.InRe(t, z3.Plus(z3.Range("0", "9"))))
+            if self.branch(valid):
+                return Ok(z3.Int2BV(z3.StrToInt(t), 64))
+            return Err(Uninterp("parse", [recv]))
         raise Unsupported("str method %s on %r" % (name, recv))
 
     def list_method(self, recv, name, args):
